@@ -45,6 +45,7 @@ SPACES = {
               ("content", "ContentQuick", "CanonPair", "OpenTried", "AllItems")],
     "thorough": [("auth", "AuthFull", "PairsQuick", "AllTried", "CanonItem"),
                  ("dict", "AllDictCfg", "CanonPair", "DictTried", "CanonItem"),
+                 ("size", "SizeCfgFull", "CanonPair", "SizeTried", "AllItems"),
                  ("authpw", "AuthPw", "PairsFull", "AllTried", "CanonItem"),
                  ("content", "ContentFull", "CanonPair", "OpenTried", "AllItems"),
                  ("mixed", "MixedCfg", "MixedPairs", "MixedTried", "AllItems")],
